@@ -1054,6 +1054,10 @@ class Engine:
             return self.call_function(f.func, [f.recv] + list(args), kwargs, fr, path)
         if isinstance(f, FuncInfo):
             return self.call_function(f, args, kwargs, fr, path)
+        if isinstance(f, NestedFunc):
+            if f.fi is not None and self.contracts.get(f.fi.qualname) is not None:
+                return self.call_function(f.fi, args, kwargs, fr, path)       # a nested function under contract
+            raise Limitation(f"call of the nested function {f.node.name}, which has no contract")
         if isinstance(f, ClassRef):
             return self.construct(f, args, kwargs, fr, path)
         if isinstance(f, ModRef):
@@ -1351,6 +1355,13 @@ class Engine:
 
     def bi_len(self, args, kwargs, fr, path):
         (v,) = args
+        if isinstance(v, AbsSet):
+            # every item denotes at least one code point: the set is empty iff its denotation is
+            n = self.fresh("abslen", IntS)
+            x = z3.Int("x!len")
+            path.assume(n >= 0)
+            path.assume((n == 0) == z3.ForAll([x], z3.Not(v.mem(x))))
+            return n
         if isinstance(v, (str, tuple, list, dict)):
             return len(v)
         if isinstance(v, SetV):
@@ -1393,6 +1404,8 @@ class Engine:
             return v.to_list(self, path)
         if isinstance(v, TermList):
             return v
+        if isinstance(v, AbsSet):
+            return v            # the order of a set's elements is arbitrary; only the denotation is tracked
         raise Limitation(f"list({v!r})")
 
     def bi_tuple(self, args, kwargs, fr, path):
@@ -1423,7 +1436,7 @@ class Engine:
             return v
         if isinstance(v, (MapList, SymSeq)):
             return SymSet(v)
-        if isinstance(v, SymSet):
+        if isinstance(v, (SymSet, AbsSet)):
             return v
         raise Limitation(f"set({v!r})")
 
@@ -1596,6 +1609,8 @@ class Engine:
         raise Limitation(f"method {name} of {kind_of(recv)}")
 
     def str_method(self, recv, name, args, kwargs, fr, path):
+        if name == "join" and recv == "" and len(args) == 1 and isinstance(args[0], AbsSet) and args[0].joined is not None:
+            return args[0].joined
         if name == "join" and isinstance(recv, str) and len(args) == 1 and isinstance(args[0], (tuple, list)):
             parts = []
             for i, x in enumerate(args[0]):
@@ -1943,6 +1958,32 @@ class SetV:
 class SymSet:
     def __init__(self, seq):
         self.seq = seq
+
+
+class AbsSet:
+    """a python set / list of class items (range strings 'a-z' and / or single characters, all unescaped and well formed)
+    known only through the set of code points it denotes (`mem`: x -> Bool).  kind: 'range', 'char', 'mix' (ranges and
+    characters together) or 'esc' (the items re-escaped for printing; `joined` is then the text of ''.join(...))"""
+
+    def __init__(self, kind, mem, joined=None):
+        self.kind, self.mem, self.joined = kind, mem, joined
+
+    def __repr__(self):
+        return f"<AbsSet {self.kind}>"
+
+    def m_union(self, eng, path, fr, other):
+        if not isinstance(other, AbsSet):
+            raise Limitation(f"union of an abstract class-item set with {other!r}")
+        kind = self.kind if self.kind == other.kind else "mix"
+        a, b = self.mem, other.mem
+        return AbsSet(kind, lambda x, a=a, b=b: z3.Or(a(x), b(x)))
+
+    def m_difference(self, eng, path, fr, other):
+        # exact on the denotation only for sets of single (unescaped) characters: equal strings <=> equal code points
+        if not (isinstance(other, AbsSet) and self.kind == "char" and other.kind == "char"):
+            raise Limitation("difference of abstract class-item sets that are not both sets of characters")
+        a, b = self.mem, other.mem
+        return AbsSet("char", lambda x, a=a, b=b: z3.And(a(x), z3.Not(b(x))))
 
 
 class FiltSeq:
